@@ -211,7 +211,9 @@ Emit == /\ job # <<>> /\ "done" \notin DOMAIN job
                R == Render(ts, StyleOf(job.style), Overrides(ts, job.ov))
            IN PrintT(ToJson([rec |-> "layout", id |-> job.id, text |-> R.text, valid |-> job.viol = 0 /\ "mut" \notin DOMAIN job, viol |-> V.viol,
                              modular |-> D.header = "module", m |-> IF job.viol = 0 THEN ModelOf(D) ELSE <<>>,
-                             tagged |-> Tagged(ts, R.pos), errtag |-> V.tag, nsites |-> Cardinality(Sites(ts))]))
+                             tagged |-> Tagged(ts, R.pos), errtag |-> V.tag, nsites |-> Cardinality(Sites(ts)),
+                             \* every lexeme with its position (the lexer's token trace is validated against it)
+                             lexemes |-> [i \in 1..Len(ts) |-> <<ts[i].lex, R.pos[i][1], R.pos[i][2]>>]]))
         /\ job' = [job EXCEPT !.done = TRUE] /\ UNCHANGED ji
 Next == Load \/ Emit
 Spec == Init /\ [][Next]_vars
